@@ -119,3 +119,63 @@ func bigCase(cap, n, nto, rep int) []string {
 	l2 := bigListing(fsd.Open(dir, cap, nil).Store, name, ids)
 	return []string{"l0=" + fsd.Short(l0), "l1=" + fsd.Short(l1), "l2=" + fsd.Short(l2), "same=" + vh.B(l0 == l1), "res=" + r1 + "," + r2}
 }
+
+// Restart with mailboxes of MANY messages, mutated right before the stop:
+//
+//	size <cap> <pool> <n> <muts>   => res= l0= l1= same= l2=
+//
+// n plain deliveries to one mailbox through one store object, then the mutations (r.<j> removes the j-th delivery,
+// s.<j> marks it seen; comma separated, "-" for none) through the SAME object and nothing after them; l0 is the
+// listing through that object, l1 the listing through a fresh file.New on the path (the store was stopped right after
+// the mutations; must equal l0: same=1); then one more delivery through a fresh object and l2 through another one.
+func sizeCase(cap, n int, muts string) []string {
+	dir := fsd.Scratch("c10z")
+	defer os.RemoveAll(dir)
+	name := fsd.Pool()[0].Name
+	var ids []string
+	deliver := func(st storage.Store, j int) string {
+		id, err := st.AddMessage(&message.Delivery{
+			Meta: event.MessageMetadata{Mailbox: name, From: &mail.Address{Address: "f@from.example"}, To: bigTo(j, 1),
+				Date: time.Unix(1600000000+int64(j), 0), Subject: "big" + strconv.Itoa(j)},
+			Reader: bytes.NewReader(bigBody(j, 1))})
+		if err != nil {
+			return "err"
+		}
+		ids = append(ids, id)
+		return "k" + strconv.Itoa(len(ids)-1)
+	}
+	s := fsd.Open(dir, cap, nil)
+	for j := 0; j < n; j++ {
+		if deliver(s.Store, j) == "err" {
+			return []string{"DELIVERY-FAILED"}
+		}
+	}
+	var res []string
+	if muts != "-" {
+		for _, m := range strings.Split(muts, ",") {
+			f := strings.Split(m, ".")
+			j := vh.AtoI(f[1])
+			var err error = storage.ErrNotExist
+			if j < len(ids) {
+				if f[0] == "r" {
+					err = s.Store.RemoveMessage(name, ids[j])
+				} else {
+					err = s.Store.MarkSeen(name, ids[j])
+				}
+			}
+			switch err {
+			case nil:
+				res = append(res, "ok")
+			case storage.ErrNotExist:
+				res = append(res, "notexist")
+			default:
+				res = append(res, "err")
+			}
+		}
+	}
+	l0 := bigListing(s.Store, name, ids)
+	l1 := bigListing(fsd.Open(dir, cap, nil).Store, name, ids)
+	r2 := deliver(fsd.Open(dir, cap, nil).Store, n)
+	l2 := bigListing(fsd.Open(dir, cap, nil).Store, name, ids)
+	return []string{"res=" + strings.Join(append(res, r2), ","), "l0=" + fsd.Short(l0), "l1=" + fsd.Short(l1), "same=" + vh.B(l0 == l1), "l2=" + fsd.Short(l2)}
+}
